@@ -32,6 +32,8 @@ const (
 	msgTypeApp           uint8 = 2
 
 	msgAppV2BufSize = 1024 * 1024
+	// the max number of entries allocated before they are really read from the stream
+	maxPreallocEntries = 1024
 )
 
 // msgappv2 stream sends three types of message: linkHeartbeatMessage,
@@ -231,12 +233,26 @@ func (dec *msgAppV2Decoder) decode() (raftpb.Message, error) {
 			return m, err
 		}
 		l := binary.BigEndian.Uint64(dec.uint64buf)
-		m.Entries = make([]raftpb.Entry, int(l))
+		if l > readBytesLimit {
+			return m, ErrExceedSizeLimit
+		}
+		// the length read from the stream should not be trusted for a huge allocation
+		prealloc := l
+		if prealloc > maxPreallocEntries {
+			prealloc = maxPreallocEntries
+		}
+		m.Entries = make([]raftpb.Entry, int(prealloc))
 		for i := 0; i < int(l); i++ {
+			if i >= len(m.Entries) {
+				m.Entries = append(m.Entries, raftpb.Entry{})
+			}
 			if _, err := io.ReadFull(dec.r, dec.uint64buf); err != nil {
 				return m, err
 			}
 			size := binary.BigEndian.Uint64(dec.uint64buf)
+			if size > readBytesLimit {
+				return m, ErrExceedSizeLimit
+			}
 			var buf []byte
 			if size <= msgAppV2BufSize {
 				buf = dec.buf[:size]
@@ -265,6 +281,9 @@ func (dec *msgAppV2Decoder) decode() (raftpb.Message, error) {
 		var size uint64
 		if err := binary.Read(dec.r, binary.BigEndian, &size); err != nil {
 			return m, err
+		}
+		if size > readBytesLimit {
+			return m, ErrExceedSizeLimit
 		}
 		var buf []byte
 		if size <= msgAppV2BufSize {
